@@ -362,6 +362,8 @@ type world struct {
 	meta         *gallina.Meta
 	hasSeries    map[int64]bool // refs with a series record in the WAL (as last observed)
 	interleaved  bool
+	orderDep     bool // the last checkpoint holds two refs of one label set in one record (Go map order decides the replay)
+	skipped      int
 	openRefs     map[int64]map[int64]bool // open appender -> refs of its accepted appends
 	openApps     map[int64]bool           // appenders that are open right now
 	gcPending    map[int64]bool           // refs garbage collected while an open appender held data for them
@@ -461,6 +463,18 @@ func (w *world) truncate(ts int64) {
 	w.ev("et "+zi(ts)+" "+zi(w.in.fval(0)), fmt.Sprintf("ot %s %s %s %s %s %s %s", zi(int64(d.CpIdx)), recList(d.Cp), zi(int64(d.First)), zi(int64(d.Last)),
 		d.segList(), ser, w.deletedTerm()))
 	w.resync(d)
+	w.orderDep = false
+	for _, r := range d.Cp {
+		if r.Kind == 0 && w.opts.CheckpointFromInMemorySeries {
+			labs := map[int64]bool{}
+			for _, p := range r.Pairs {
+				if labs[p[1]] {
+					w.orderDep = true
+				}
+				labs[p[1]] = true
+			}
+		}
+	}
 	w.desc = append(w.desc, fmt.Sprintf("truncate(%d) gc=%d cp=%d", ts, before-len(ss), d.CpIdx))
 	live := map[int64]bool{}
 	for _, s := range ss {
@@ -501,6 +515,13 @@ func (w *world) truncate(ts int64) {
 }
 
 func (w *world) restart() {
+	if w.orderDep {
+		// an in-memory checkpoint record lists two refs of one label set in Go map order: which of them
+		// loadWAL makes the canonical series is not determined by the history — not replayed
+		w.skipped++
+		w.desc = append(w.desc, "restart skipped (order-dependent in-memory checkpoint)")
+		return
+	}
 	must(w.db.Close())
 	w.open()
 	w.restarts++
@@ -873,7 +894,9 @@ func (g *genState) oneAppend(a *appender) {
 			}
 		}
 		for k := r.Intn(4); k > 0 && r.Chance(1, 2); k-- {
-			s.exs = append(s.exs, g.mkExemplar())
+			x := g.mkExemplar()
+			x.e.Ts = min(x.e.Ts, s.t) // validity: an exemplar is not newer than its sample (see notes)
+			s.exs = append(s.exs, x)
 		}
 	}
 	ref, code := w.append(a, s)
@@ -881,14 +904,14 @@ func (g *genState) oneAppend(a *appender) {
 		g.refs[i] = ref
 	}
 	if a.ver == 1 && r.Chance(1, 3) {
-		er := ref
-		if er == 0 {
-			er = g.refs[i]
+		x := g.mkExemplar()
+		x.e.Ts = min(x.e.Ts, s.t) // validity: an exemplar is not newer than its sample (see notes)
+		switch {
+		case r.Chance(1, 12):
+			w.appendExemplar(a, uint64(950+r.Intn(3)), s.lset, x) // unknown series
+		case code == eOK && ref != 0:
+			w.appendExemplar(a, ref, s.lset, x)
 		}
-		if r.Chance(1, 12) {
-			er = uint64(950 + r.Intn(3)) // unknown series
-		}
-		w.appendExemplar(a, er, s.lset, g.mkExemplar())
 	}
 }
 
@@ -1152,6 +1175,7 @@ func main() {
 		meta.Dist["exemplars-accepted"] += w.exAccepted
 		meta.Dist["exemplars-not-accepted"] += w.exRejected
 		meta.Dist["orphans-at-commit"] += w.orphansAtCommit
+		meta.Dist["restarts-skipped-order-dependent-checkpoint"] += w.skipped
 		if w.opts.CheckpointFromInMemorySeries {
 			meta.Hit("history-inmemory-checkpoint")
 		}
